@@ -1,7 +1,7 @@
 """Property -> rule list, with the text that goes into the evidence."""
 import importlib
 
-RULE_MODULES = ["su", "w", "xn", "gv", "r"]
+RULE_MODULES = ["su", "w", "xn", "gv", "r", "lmt"]
 
 COMMON_ASSUME = [
     "clang 14's parse, constant evaluation and CFG of each unit are faithful to the C semantics",
@@ -92,6 +92,11 @@ PROPS = {
               "(V3).",
               "equality of the repeated and the retyped execution (relational, behavioural); the "
               "bounds of the recording/push-back buffers are decided under C05 (B1)."),
+    "C10": _p(["R4", "R5", "R6"], "wip.", "wip."),
+    "C12": _p(["L1", "L2", "L3", "L4"], "wip.", "wip."),
+    "C13": _p(["M2", "M1"], "wip.", "wip."),
+    "C14": _p(["M1", "T1", "L2"], "wip.", "wip."),
+    "C16": _p(["T1", "T2", "T3"], "wip.", "wip."),
     "C11": _p(["R1", "R2", "R3", "R7"], "wip.", "wip."),
     "C15": _p(["S4", "G1", "G2"],
               "nothing reachable from a line-command handler or from ex_exec (dispatch edge "
